@@ -204,6 +204,13 @@ fn main() {
             );
             r
         }
+        ("direct", Some("histserde")) => {
+            let mut r = Report::default();
+            let seed: u64 = m.get("seed").and_then(|s| s.parse().ok()).unwrap_or(1);
+            let reps: usize = m.get("reps").and_then(|s| s.parse().ok()).unwrap_or(20);
+            hist_types::direct_histserde(seed, reps, &mut r);
+            r
+        }
         _ => {
             eprintln!("usage: conform replay --family moments --input F --prop Cxx --out R");
             std::process::exit(2);
